@@ -165,7 +165,7 @@ func genHistCase(rng *rand.Rand, prop string) *histCase {
 			}
 		}
 	}
-	methodsOf := [][]string{{"GET"}, {"GET", "POST"}, {"GET", "HEAD", "*"}, {"*"}}[rng.Intn(4)]
+	methodsOf := [][]string{{"GET"}, {"GET", "POST"}, {"GET", "HEAD", "*"}, {"*"}, {"GET,POST", "GET"}, {"POST,GET,HEAD", "PUT,DELETE"}}[rng.Intn(6)]
 	var routes []*rmodel.Route
 	var routeMeth []string
 	lastPairs := map[int][]string{}
@@ -246,6 +246,8 @@ func genHistCase(rng *rand.Rand, prop string) *histCase {
 			m := routeMeth[ri]
 			if m == "*" {
 				m = routerMethods[rng.Intn(len(routerMethods))]
+			} else if l := strings.Split(m, ","); len(l) > 1 {
+				m = l[rng.Intn(len(l))]
 			}
 			switch rng.Intn(15) {
 			case 0:
@@ -265,7 +267,7 @@ func genHistCase(rng *rand.Rand, prop string) *histCase {
 
 func runHist(r *core.Run, prop string) {
 	if prop == "C09" {
-		r.Rule("router histories (6-35 steps): registrations (static-biased pools; fully static, optional static, dynamic routes; single methods and Any), Headers() calls on 30-70% of routes and again later (0-2 pairs, empty set, empty expression, never-matching expression, differently-cased names), requests with route-directed header sets (matching / non-matching / empty / missing values). Oracle: reference dispatch model restricted to routes whose latest constraint set passes (non-empty value matched by the expression, for every constrained header). non-trivial = distinct requests whose outcome differs from the outcome of the same request with all constraints satisfied (the constraint decided)")
+		r.Rule("router histories (6-35 steps): registrations (static-biased pools; fully static, optional static, dynamic routes; single methods, method lists through Routes() and Any), Headers() calls on 30-70% of routes and again later (0-2 pairs, empty set, empty expression, never-matching expression, differently-cased names), requests with route-directed header sets (matching / non-matching / empty / missing values). Oracle: reference dispatch model restricted to routes whose latest constraint set passes (non-empty value matched by the expression, for every constrained header). non-trivial = distinct requests whose outcome differs from the outcome of the same request with all constraints satisfied (the constraint decided)")
 	} else {
 		r.Rule("router histories interleaving registrations (static, optional-static, dynamic shadowing candidates, several methods and Any), Headers() calls and requests; request paths include every route's text used as a path (raw, canonical, with '?'), instances, extra leading slashes, trailing slash, empty path, escapes. Oracle: route.Tree.Match on a twin tree per method that receives the same AddRoute / SetHeaderMatcher calls in the same order; with hooks the whole shortcut table is enumerated after every step and compared with tree matching on the router's own tree. non-trivial = distinct requests answered through the shortcut (path equals a table key) or differing from a key only by slashes or '?'")
 	}
@@ -353,6 +355,8 @@ func judgeHist(w *core.W, c *histCase, prop string) {
 			methods := []string{up}
 			if up == "*" {
 				methods = routerMethods
+			} else if strings.Contains(up, ",") {
+				methods = strings.Split(up, ",") // Routes(): registered method by method, in list order
 			}
 			// model and twin advance method by method and stop where the router stops
 			var okMethods []string
